@@ -26,12 +26,14 @@ TIMEOUT = 120.0
 HYPOTHESES = [
     "try_factor64_sound (theorem cofactor_spec): when fbase::try_factor64 (Pollard rho / ECM, not modelled) returns Some((a, b)) "
     "then a*b is its argument",
+    "nblocks <= 2^17 (listed_complete, listed_complete_inv, listed_complete_rehash, no_panic, no_panic_rehash): the interval fits "
+    "u32 (is_factor multiplies the block number by 32768 in u32; callers use at most a few dozen blocks)",
     "FB.WF / RootsOK / RecycledOK (all sieve theorems): factor base strictly increasing with primes in [2, 2^24) and idx_by_log[l] = "
     "index of the first prime of bit length >= l (checked on FBase::new by the sv_fb stream; proved for the synthetic bases: "
     "FB.ofPrimes_WF), both root tables reduced (r < p, property C12), recycled SieveTable.overflows has its 32 slots (Rust type)",
     "Dividers::{modu16, modi64, divmod_uint} are exact remainders/quotients (property C08: modu16_spec, modi64_spec)",
     "RootsDistinct (no_panic, no_panic_rehash): the two roots of every prime >= 32768 differ (the debug assertion of Sieve::new); "
-    "they also assume a non-empty factor base, nblocks <= 2^17, |start offset| <= 2^62 and RecycledSized: recycled tables come from a "
+    "they also assume a non-empty factor base, |start offset| <= 2^62 (no_panic_rehash: (rounds + 1) * nblocks <= 2^40) and RecycledSized: recycled tables come from a "
     "sieve with the same factor base and number of blocks (the documented requirement of Sieve::new), contents arbitrary",
     "must_be_prime (cofactor_no_panic): every divisor of the value that is <= maxlarge and divisible by no listed prime is 1 or a prime "
     "(the code's comment 'Must be prime'; follows from a complete list and maxlarge < maxprime^2); also value != 0, |value| < 2^256, "
@@ -154,6 +156,38 @@ def split_answer(ans):
 
 # ---------------------------------------------------------------- oracle
 
+def bucket_overflows(P, R1, R2, nblocks):
+    """Independent recomputation of the bucket fill of the large-prime tables from (P, roots, nblocks):
+    -> (over, total, ltotal) with over[k] = {bucket index: hits} for the 256-wide buckets of size class 16+k that
+    receive more than 32 hits, total[k] = sum of max(0, hits - 32) = the number of overflows the implementation must
+    count, ltotal[k] = sum of max(0, hits - 1024) over the 16384-wide buckets of size class 19+k."""
+    interval = nblocks * BLOCK
+    fill = [dict(), dict(), dict()]
+    lfill = {}
+    for i, p in enumerate(P):
+        if p < BLOCK:
+            continue
+        lg = bitlen(p)
+        for o in (R1[i], R2[i]):
+            x = o
+            if lg <= 18:
+                f = fill[lg - 16]
+                while x < interval:
+                    b = x >> 8
+                    f[b] = f.get(b, 0) + 1
+                    x += p
+            else:
+                f = lfill.setdefault(lg - 19, {})
+                while x < interval:
+                    b = x >> 14
+                    f[b] = f.get(b, 0) + 1
+                    x += p
+    over = [{b: h for b, h in f.items() if h > 32} for f in fill]
+    total = [sum(h - 32 for h in o.values()) for o in over]
+    ltotal = {k: sum(max(0, h - 1024) for h in f.values()) for k, f in lfill.items()}
+    return over, total, ltotal
+
+
 def check_sv(case, ans):
     sp = split_answer(ans)
     if sp is None:
@@ -168,10 +202,14 @@ def check_sv(case, ans):
         if c[0] == "new":
             _, off, nblocks, R1, R2 = c
             cur = {"off0": off, "nblocks": nblocks, "small": (R1, R2), "large": (R1, R2), "B": 0, "blk_no": 0,
-                   "missed": {}}
+                   "missed": {}, "ovf": bucket_overflows(P, R1, R2, nblocks)}
         elif c[0] == "rehash":
             cur["large"] = (c[1], c[2])
             cur["blk_no"] = 0
+            if cur["nblocks"]:
+                # rehash resets the tables and registers the new roots
+                cur["missed"] = {}
+                cur["ovf"] = bucket_overflows(P, c[1], c[2], cur["nblocks"])
         elif c[0] == "skip":
             cur["B"] += c[1]
             cur["blk_no"] += c[1]
@@ -233,6 +271,14 @@ def check_block(P, cur, d, stats):
     stats["ovmax"] = max([stats["ovmax"]] + d["tov"])
     stats["lov"] = max(stats["lov"], sum(d["lov"]))
     B, blk_no = cur["B"], cur["blk_no"]
+    # the overflow counters of the implementation must be the recomputed ones (they are not trusted below)
+    over, total, ltotal = cur["ovf"]
+    for k, v in enumerate(d["tov"]):
+        if v != total[k]:
+            return f"n_overflows of size class {16 + k} is {v}, the bucket fill computed from the roots gives {total[k]}"
+    for k, v in enumerate(d["lov"]):
+        if v != ltotal.get(k, 0):
+            return f"overflow entries of size class {19 + k}: {v}, computed from the roots: {ltotal.get(k, 0)}"
     must = 0
     for i, p in enumerate(P):
         small = p < BLOCK
@@ -246,14 +292,16 @@ def check_block(P, cur, d, stats):
                     must += 1
                     if i not in f:
                         lg = bitlen(p)
-                        if 16 <= lg <= 18 and d["tov"][lg - 16] > 32:
+                        # a miss is excused only in a bucket that really receives more than 32 hits (recomputed from
+                        # the roots, not taken from the answer), and only total - 32 hits of the class can be lost
+                        if 16 <= lg <= 18 and ((base + r) >> 8) in over[lg - 16] and total[lg - 16] > 32:
                             key = lg - 16
                             s = cur["missed"].setdefault(key, set())
                             s.add((base + r, i))
                             stats["excused"] += 1
-                            if len(s) > d["tov"][key] - 32:
+                            if len(s) > total[key] - 32:
                                 return (f"{len(s)} hits of size class {lg} are missing but only "
-                                        f"{d['tov'][key]} - 32 overflows were counted")
+                                        f"{total[key]} - 32 overflows can be lost")
                         else:
                             return (f"block {B} (blk_no {blk_no}) position {r}: prime #{i} = {p} has root {o} "
                                     f"({base}+{r} = {o} mod {p}) but is not listed; listed = {sorted(f)[:12]}")
@@ -615,11 +663,6 @@ def cof_case(rng):
     size = rng.choice([30, 200, 1500])
     P = make_fb(rng, size, 0.5)
     maxprime = P[-1]
-    nf = rng.randrange(0, 9)
-    idx = sorted(rng.sample(range(len(P)), min(nf, len(P))))
-    x = 1
-    for i in idx:
-        x *= P[i] ** rng.choice([1, 1, 1, 2, 3])
     maxlarge = maxprime * rng.choice([1, 2, 50, 300])
     double = rng.random() < 0.4
     kind = rng.choice(["one", "prime", "prime", "bigprime", "double", "double", "huge"])
@@ -633,12 +676,30 @@ def cof_case(rng):
         a = gen.next_prime(rng.randrange(maxprime, max(maxprime + 2, maxlarge)))
         b = gen.next_prime(rng.randrange(maxprime, max(maxprime + 2, maxlarge)))
         c = a * b
+        if c <= maxlarge:
+            c = a          # a composite cofactor <= maxlarge contradicts the code's "must be prime" (outside the contract)
     else:
         c = gen.next_prime(rng.getrandbits(rng.choice([65, 90, 140])))
-    x *= c
-    if x.bit_length() > 250:
-        x = c if c.bit_length() <= 250 else 1
-        idx = []
+    # prime powers: high valuations for the smallest primes (the inner loop of cofactor divides until the remainder
+    # is non-zero: valuations 4..64 of 2, 3, 5), small ones for random listed primes; the value stays below 2^250
+    fact = []
+    if rng.random() < 0.5:
+        for i in range(min(3, len(P))):
+            if rng.random() < 0.6:
+                fact.append((i, rng.choice([4, 5, 7, 8, 12, 13, 16, 31, 32, 33, 64])))
+    nf = rng.randrange(0, 9)
+    for i in rng.sample(range(len(P)), min(nf, len(P))):
+        if all(i != j for j, _ in fact):
+            fact.append((i, rng.choice([1, 1, 1, 2, 3])))
+    x = c if c.bit_length() <= 250 else 1
+    idx = []
+    for i, e in fact:
+        while e > 0 and (x * P[i] ** e).bit_length() > 250:
+            e //= 2
+        if e > 0:
+            x *= P[i] ** e
+            idx.append(i)
+    idx.sort()
     if rng.random() < 0.4:
         x = -x
     facs = list(idx)
@@ -713,7 +774,7 @@ def _late_block_cases(rng, quick):
     """very large primes (>= 2^19) hit an interval of more than 8 blocks twice: the second hit lands in
     block 8 or later. Oracle only (no model comparison), in every tier."""
     P = make_fb(rng, 14000 if quick else 23000, 0.5, 0)
-    for shape in (["plain", "recycle"] if quick else ["plain", "partial", "recycle", "rehash"]):
+    for shape in (["plain", "recycle", "rehash"] if quick else ["plain", "partial", "recycle", "rehash"]):
         for nb in ([12] if quick else [9, 12, 20]):
             line = scenario(rng, P, shape, nb, "n120", False)
             yield Case(line, k=False, tag=f"sv/late-block/{shape}", timeout=600)
@@ -725,7 +786,11 @@ def corpus_case(line):
     if line.startswith("!K "):
         l = line[3:]
         return Case(l, k=False, tag="K corpus")
-    return Case(line, k=line.split(" ")[0] != "sv", tag="corpus")
+    t = line.split(" ")
+    if t[0] == "sv_cof" and t[-1] == "true":
+        # double large prime path: try_factor64 is replayed through `followup`
+        return Case(line, k=False, tag="corpus")
+    return Case(line, k=t[0] != "sv", tag="corpus")
 
 
 # ---------------------------------------------------------------- distribution
@@ -779,10 +844,12 @@ RULE = ("factor bases: {40, 600, 1900, 1999/2000 (pskip boundary), 3600, 5000, 1
         "scripts {plain, partial (skip k blocks, then report), recycle (tables of 1 or 2 previous sieves with other roots), rehash "
         "(two interval shifts as qsieve does), overflow (17..29 primes of one size class with both roots in one 256-wide bucket), "
         "overflow-lost (36..59 primes: more than 32 overflows), overflow-recycle, loverflow (> 1024 hits in one 16384-wide bucket)} x "
-        "nblocks in 0..12, start offsets {0, -M/2, random 40-bit}, root hint none/Some; the harness picks the threshold so that about "
+        "late-block (14000/23000 primes, 9..20 blocks, plain/recycle/rehash: second hits of primes >= 2^18) x nblocks in 0..12, start offsets {0, -M/2, random 40-bit}, root hint none/Some; the harness picks the threshold so that about "
         "`want` positions are reported per block; every reported position is judged against EVERY factor-base prime; bucket tables "
         "(svt/svl) through the hooks: spread and concentrated adds, with and without reset; cofactor: products of listed primes times "
-        "{1, prime, large prime, double large prime, huge}, lists with extra indices/duplicates/any order; non-trivial = at least one "
+        "{1, prime, large prime, double large prime, huge} with valuations up to 64 for 2, 3, 5, lists with extra indices/duplicates/any "
+        "order; the oracle recomputes the bucket fill from (P, roots, nblocks): the implementation's overflow counters must equal "
+        "sum max(0, hits - 32) and a missing prime is excused only in a bucket that really overflows; non-trivial = at least one "
         "position reported (sv) / any request (others); distinct by request line")
 MODELLED = [
     "sieve::Sieve::new: pskip/idxskip, cursor initialisation of the first size class (u16 casts, OFFSET_NONE for r1 = r2), registration of "
@@ -805,6 +872,13 @@ UNMODELLED = [
     "of distinct prime divisors <= 256); beyond it the overflow is reachable (finding reported: 398-bit n, Algo::Qs, checked profile)",
     "Dividers::{modu16, modi64, divmod_uint} are modelled as %, / (property C08); fbase::try_factor64 (Pollard rho / ECM) is a parameter "
     "of the cofactor model (the driver replays the pair returned by the implementation)",
+    "outside the contract, documented and kept away from the generators: (a) Sieve::smooths with threshold 0 (`threshold2 - 1` "
+    "underflows: panic at sieve.rs:576 in the checked profile): every caller passes n.bits/2 + log2(M) - max_cofactor.bits which is "
+    ">= 1 for the parameter tables (a non-positive target would underflow in the caller first; parameters are C20/C03); (b) "
+    "fbase::cofactor with maxlarge >= 2^32 (maxlarge * maxlarge overflows u64: model and checked profile panic, release wraps; "
+    "corpus line, chk only): every caller clamps/asserts maxlarge <= 2^32 - 1 (C20 *_maxlarge_ok); (c) cofactor on the value 0 with "
+    "a non-empty list never terminates (model: fuel exhausted = panic; not sent to the code): P(x) = 0 needs n to be a perfect "
+    "square, which factor() removes before any sieve (x = 0 with an empty list is in the corpus)",
     "memory safety of get_unchecked / transmute((u8,u8)) layouts: the model indexes the same cells and returns `panic` where an index "
     "leaves the array, it does not model undefined behaviour",
 ]
@@ -814,7 +888,7 @@ CLAIM = ("Lean theorems, for all factor bases / root tables / block numbers / po
          "(modu16(r) == off; r == off || r == off + p) hold exactly when the position is congruent to the root; every (offset, prime) "
          "added to a bucket table is found by the lookup except for exactly n_overflows - 32 counted losses (large tables: none); "
          "reset hides every stale entry; hence the factor list of ANY position contains every factor-base prime whose root matches, up "
-         "to the counted losses of the size classes 16..18 (also after rehash); on valid inputs no panic site of the modelled code is "
+         "to the counted losses of the size classes 16..18 (also after any number of rehash calls); on valid inputs no panic site of the modelled code is "
          "reached, with fresh or recycled tables, after rehash, and in cofactor (no_panic, no_panic_rehash, cofactor_no_panic); the idx_by_log "
          "loop of FBase::new yields the class partition the sieve relies on (fbase_new_classes); cofactor's factors multiply back and its cofactor has no "
          "listed prime factor, so it is 1 or has only prime factors above the bound when the list is complete. The model is tied to the "
